@@ -749,6 +749,12 @@ func (c *Checker) checkAuthority(x *callCtx, diffs []diffSlot) {
 		c.report(x, "C03", "%s ok although the caller is not the ESDT system contract", fn)
 	}
 	handOverDelivery := x.msg != nil && x.ann.kind == "deliver" && x.msg.Fn == FnHandOver
+	// authority moves, it is not copied: after the system contract's hand-over the old holder no longer lists the role
+	if fn == FnHandOver && x.isSys && len(call.Args) == 2 && !c.undisciplined[string(call.Args[0])] && !bytes.Equal(call.Args[1], call.Rcv) {
+		if r, _ := DecodeRoles(postValue(c.w, call.Shard, call.Rcv, RolePrefix+string(call.Args[0]))); hasRole(r, RoleNFTCreate) {
+			c.report(x, "C03", "the create-role hand-over of %q left the role with the old holder %x as well (roles %q)", call.Args[0], call.Rcv, r)
+		}
+	}
 	if fn == FnHandOver && !x.isSys && !handOverDelivery {
 		c.report(x, "C03", "create-role hand-over accepted from %x, which is neither the system contract nor the delivery of an emitted hand-over", call.Caller)
 	}
